@@ -18,6 +18,7 @@ import (
 
 	"github.com/gopcua/opcua/id"
 	"github.com/gopcua/opcua/schema"
+	"github.com/gopcua/opcua/simhook"
 	"github.com/gopcua/opcua/ua"
 	"github.com/gopcua/opcua/uacp"
 	"github.com/gopcua/opcua/uapolicy"
@@ -365,6 +366,7 @@ func (s *Server) monitorConnections(ctx context.Context) {
 		}
 
 		// todo: should this be delegated to another goroutine in case handling this hangs?
+		simhook.Yield("server.beforeHandleService")
 		s.handleService(ctx, sc, msg.RequestID, msg.Request())
 	}
 }
